@@ -237,6 +237,20 @@ theorem mfnd_spec (t : Forest) (hs : Sorted none t)
     have hz' : findD (List.foldl stepT t (walk t)) w = z := by unfold findD; rw [hz]; rfl
     rw [← hz', hval]
 
+/-- `assign_filtration` keeps the tree sorted (it touches values only) -/
+theorem sorted_setVal (t : Forest) (w : List Nat) (x : Int) : ∀ lb, Sorted lb t → Sorted lb (setVal t w x) := by
+  induction t, w, x using setVal.induct with
+  | case1 w x => intro lb _; simp only [setVal]; trivial
+  | case2 l f k r x => intro lb h; simp only [setVal]; exact h
+  | case3 f k r v x => intro lb h; rw [setVal, if_pos rfl]; exact h
+  | case4 l f k r v x hvl ih =>
+    intro lb h; rw [setVal, if_neg hvl]; exact ⟨h.1, h.2.1, ih (some l) h.2.2⟩
+  | case5 f k r l v2 vs x ih =>
+    intro lb h; rw [setVal, if_pos rfl]; exact ⟨h.1, ih (some l) h.2.1, h.2.2⟩
+  | case6 l f k r v v2 vs x hvl ih =>
+    intro lb h; rw [setVal, if_neg hvl]; exact ⟨h.1, h.2.1, ih (some l) h.2.2⟩
+
+#print axioms sorted_setVal
 #print axioms find_setVal
 #print axioms mem_walk_iff
 #print axioms mfnd_spec
